@@ -12,6 +12,7 @@ mod keyring;
 mod kr;
 mod golden;
 mod noise;
+mod prims;
 mod sio;
 mod specread;
 mod stream;
@@ -53,6 +54,13 @@ fn real_main() {
             }
             let t = terms::Templates::load(&args[2]);
             fuzz::run_file(&t, seed(), &args[3], &args[4]);
+        }
+        "prims" => {
+            if args.len() != 5 {
+                usage();
+            }
+            let t = terms::Templates::load(&args[2]);
+            prims::run_file(&t, seed(), &args[3], &args[4]);
         }
         "kr" => {
             if args.len() != 5 {
